@@ -21,7 +21,7 @@ RULE = ("cells = interface x kernel x target x scale; inside a cell ALL (history
         "decision tree of the transition is enumerated; a cell is non-trivial when at least one transition "
         "had an acceptance probability strictly between 0 and 1")
 BOUND = {"quick": "(+ block-in-HybridGibbs history for MH/PCN: all accept/reject patterns of 3 sweeps, 2 scales x 2 starts; + tuple target form of the "
-                  "legacy pCN; + integer-dtype initial points; + zero-density current states; + user proposal with undeclared symmetry) dims 1-2; 3 scales; 4 states per target; noise lattice {-1.5,-.5,.5,1.5}^d (d=1), 8 answers (d=2); "
+                  "legacy pCN; + integer-dtype initial points; + zero-density current states; + user proposal with undeclared symmetry; + magnitude facet: concentrated anisotropic target N(0, diag(h, h/6)), h=2^-13, scales 0.6 and h, two tail + two near-mode states, so that log target and log proposal ratios each exceed the range of exp()) dims 1-2; 3 scales; 4 states per target; noise lattice {-1.5,-.5,.5,1.5}^d (d=1), 8 answers (d=2); "
                   "histories: fresh, warm-up Nb=2 under all accept/reject patterns (<=1 deviation for CWMH), reload",
          "thorough": "dims 1-3; 3 scales + vector scale; 5 states; full lattice d<=2, 14 answers d=3; warm-up Nb<=3"}
 ASSUMPTIONS = [
@@ -34,6 +34,7 @@ ASSUMPTIONS = [
 
 IFACES = ("exp", "legacy")
 KERNELS = ("MH", "CWMH", "PCN", "MALA")
+STIFF_H = 2.0 ** -13
 
 
 # ----------------------------------------------------------------------------------------
@@ -75,6 +76,13 @@ def _logp_fns(name, k):
             t = x[1] + b * x[0] ** 2 - 1.0
             return np.array([-(x[0] / 4.0 + t * 2 * b * x[0]), -t])
         return 2, lp, gr, "nongaussian"
+    if name == "stiff2":
+        # magnitude facet: a concentrated, anisotropic Gaussian N(0, diag(h, h/6)), h = 2^-13.  From tail states the log target
+        # ratio and the log proposal ratio of a Langevin / random-walk move each leave the range of exp() (|.| > 745), in
+        # opposite directions for the Langevin move with scale h: only a log-domain test decides such moves correctly
+        h = STIFF_H
+        w = np.array([1.0 / h, 6.0 / h])
+        return 2, (lambda x: float(-0.5 * np.sum(w * x * x))), (lambda x: -w * x), "stiff"
     if name in ("nanhalf1", "nanhalf2", "infhalf1", "infhalf2"):
         d = int(name[-1])
         bad = float("nan") if name.startswith("nan") else float("-inf")
@@ -173,6 +181,7 @@ def target_names(kernel, tier):
         names += ["libgauss2", "libpost2"]
     if kernel == "MALA":
         names += ["libgauss2"]
+    names += ["stiff2"]
     if tier == "thorough":
         names += ["gauss3", "nanhalf2", "infhalf1"]
     return names
@@ -198,6 +207,8 @@ def cells(tier, seed):
                     # user-supplied component proposals: a conditional distribution whose conditioning variables come out
                     # scale-first, and a plain callable (both are the documented x_j + s_j * xi_j mechanism)
                     scales += ["userprop-dist-sl", "userprop-callable"]
+                if t == "stiff2":
+                    scales = ["s0.6", "sh"]       # a step far larger than the target's width, and the target's own h
                 if kernel == "MH" and t in ("gauss2c", "gauss1"):
                     scales.append("userprop-shifted")    # user-defined proposal, symmetry flag unset, increments NOT symmetric
                 for sc in scales:
@@ -219,6 +230,8 @@ def _scale_value(cell, dim):
         return np.array([0.3, 0.8, 0.5])[:dim]
     if sc in ("covprop", "userprop-shifted"):
         return 0.6
+    if sc == "sh":
+        return STIFF_H
     if sc in ("userprop-dist-sl", "userprop-callable"):
         return np.array([0.3, 0.8, 0.5])[:dim]
     return float(sc[1:])
@@ -359,6 +372,10 @@ def states_for(tgt, tier, k, rep=None):
     d = tgt.dim
     if rep == "int":
         return [np.array(b, dtype=float) for b in {1: [[1], [-1], [0]], 2: [[1, -1], [0, 1], [-1, 0]], 3: [[1, -1, 0], [0, 1, 1]]}[d]]
+    if tgt.name == "stiff2":
+        # two tail states (log-density about -5e3 .. -1e4) and two states within a few standard deviations of the mode
+        sc = 1.0 + 0.125 * k
+        return [sc * np.array(b) for b in ([1.0, 0.1875], [-0.5, 0.25], [2.0 ** -7, -2.0 ** -8], [-1.5 * 2.0 ** -6, 2.0 ** -7])]
     base = {1: [[-1.25], [-0.25], [0.5], [0.75]],
             2: [[-1.0, 0.5], [0.25, -0.75], [0.5, 1.25], [-0.5, -0.25]],
             3: [[-1.0, 0.5, 0.25], [0.25, -0.75, 0.5], [0.5, 1.0, -0.5]]}[d]
